@@ -832,3 +832,168 @@ func runBpmSim(seed uint64, cfg UnitCfg, dir string) (res unitResult) {
 	res.sig = shapeSig(strings.Join(opLog, ";"))
 	return
 }
+
+// ---------------------------------------------------------------- C16 concurrent part (consim workload "lock")
+
+func (cr *ConRun) runLock() {
+	cfg := &cr.Cfg
+	simrt.SeedRun(cr.Seed, false)
+	wr := newRng(simrt.Mix(cr.Seed, 45))
+	nT := 2 + wr.Intn(5)
+	nR := 1 + wr.Intn(4)
+	opsPer := 5 + wr.Intn(40)
+	path := cr.Dir + "/l"
+	removeDBFiles(path)
+	type lop struct{ kind, rid int }
+	progs := make([][]lop, nT)
+	for t := range progs {
+		for j := 0; j < opsPer; j++ {
+			progs[t] = append(progs[t], lop{wr.Intn(10), wr.Intn(nR)})
+		}
+	}
+	var violations []Violation
+	addV := func(class, detail string) {
+		violations = append(violations, Violation{Property: "C16", Class: class, Detail: detail})
+	}
+	cr.Res = simrt.Run(cr.simConfig(), func() {
+		lmgr := access.NewLockManager(access.STRICT, access.SS2PLMode)
+		shi := samehada.NewSamehadaInstance(path, 8)
+		logm := shi.GetLogManager()
+		logm.DeactivateLogging()
+		tm := access.NewTransactionManager(lmgr, logm)
+		sh := make([]map[int]bool, nR)
+		ex := make([]int, nR)
+		rids := make([]*page.RID, nR)
+		for i := range sh {
+			sh[i] = map[int]bool{}
+			ex[i] = -1
+			rids[i] = &page.RID{}
+			rids[i].Set(types.PageID(7), uint32(i))
+		}
+		txns := make([]*access.Transaction, nT)
+		invariant := func(where string) bool {
+			for i := 0; i < nR; i++ {
+				xs := 0
+				for t := 0; t < nT; t++ {
+					if txns[t] != nil && txns[t].IsExclusiveLocked(rids[i]) {
+						xs++
+					}
+				}
+				if xs > 1 {
+					addV("incompatible-locks-held", fmt.Sprintf("%s: row %d held exclusively by %d transactions", where, i, xs))
+					return false
+				}
+				if xs == 1 {
+					for t := 0; t < nT; t++ {
+						if txns[t] != nil && txns[t].IsSharedLocked(rids[i]) && !txns[t].IsExclusiveLocked(rids[i]) {
+							addV("incompatible-locks-held", fmt.Sprintf("%s: row %d has an exclusive holder and shared holder txn %d", where, i, t))
+							return false
+						}
+					}
+				}
+			}
+			return true
+		}
+		var tasks []*simrt.Task
+		for t := 0; t < nT; t++ {
+			t := t
+			tasks = append(tasks, simrt.S.Spawn(fmt.Sprintf("locker-%d", t), func() {
+				txns[t] = tm.Begin(nil)
+				for _, op := range progs[t] {
+					if len(violations) > 0 {
+						return
+					}
+					i := op.rid
+					others := func() (anyS, anyX bool) {
+						for o := range sh[i] {
+							if o != t && sh[i][o] {
+								anyS = true
+							}
+						}
+						return anyS, ex[i] >= 0 && ex[i] != t
+					}
+					switch {
+					case op.kind <= 3:
+						got := lmgr.LockShared(txns[t], rids[i])
+						// no decision point since the lock manager's critical section: the shadow table is exact
+						_, ox := others()
+						if got != !ox {
+							addV("grant-decision", fmt.Sprintf("concurrent LockShared(txn %d,row %d)=%v, rules say %v", t, i, got, !ox))
+							return
+						}
+						if got && ex[i] != t {
+							sh[i][t] = true
+						}
+					case op.kind <= 6:
+						got := lmgr.LockExclusive(txns[t], rids[i])
+						os_, ox := others()
+						if got != (!os_ && !ox) {
+							addV("grant-decision", fmt.Sprintf("concurrent LockExclusive(txn %d,row %d)=%v, rules say %v (S holders %v, X holder %d)", t, i, got, !os_ && !ox, keysOf(sh[i]), ex[i]))
+							return
+						}
+						if got {
+							ex[i] = t
+						}
+					case op.kind <= 8:
+						if !sh[i][t] {
+							continue
+						}
+						got := lmgr.LockUpgrade(txns[t], rids[i])
+						os_, ox := others()
+						if got != (!os_ && !ox) {
+							addV("grant-decision", fmt.Sprintf("concurrent LockUpgrade(txn %d,row %d)=%v, rules say %v", t, i, got, !os_ && !ox))
+							return
+						}
+						if got {
+							ex[i] = t
+						}
+					default:
+						// the transaction object keeps its own lock sets after it ended: take it out of
+						// the invariant's view before the release starts
+						ending := txns[t]
+						txns[t] = nil
+						tm.Commit(nil, ending)
+						for j := 0; j < nR; j++ {
+							delete(sh[j], t)
+							if ex[j] == t {
+								ex[j] = -1
+							}
+						}
+						txns[t] = tm.Begin(nil)
+					}
+					if !invariant(fmt.Sprintf("after an operation of txn %d", t)) {
+						return
+					}
+				}
+				ending := txns[t]
+				txns[t] = nil
+				tm.Commit(nil, ending)
+				for j := 0; j < nR; j++ {
+					delete(sh[j], t)
+					if ex[j] == t {
+						ex[j] = -1
+					}
+				}
+			}))
+		}
+		for _, tk := range tasks {
+			simrt.S.Join(tk)
+		}
+		shi.Shutdown(samehada.ShutdownPatternRemoveFiles)
+	})
+	_ = cfg
+	cr.stat("steps", int(cr.Res.Steps))
+	cr.stat("decisions", int(cr.Res.Decisions))
+	cr.stat("preemptions", int(cr.Res.Preemptions))
+	cr.stat("outcome:"+cr.Res.Outcome, 1)
+	switch cr.Res.Outcome {
+	case "ok":
+		cr.Viol = append(cr.Viol, violations...)
+	case "deadlock":
+		cr.Viol = append(cr.Viol, Violation{Property: "C16", Class: "deadlock", Detail: strings.Join(firstN(cr.Res.Blocked, 10), "; ")})
+	case "panic":
+		cr.Viol = append(cr.Viol, Violation{Property: "C16", Class: "panic-under-concurrency", Detail: fmt.Sprintf("task %s: %s [%s]", cr.Res.PanicTask, cr.Res.PanicVal, repoFrames(cr.Res.PanicStack, 6)), Site: panicSite(cr.Res.PanicStack)})
+	default:
+		cr.stat("inconclusive_"+cr.Res.Outcome, 1)
+	}
+}
